@@ -485,6 +485,7 @@ class Cloner:
         if isinstance(v, Iter): return Iter([self.val(x) for x in v.items], v.pos, v.ops, v.count, self.val(v.src))
         if isinstance(v, list): return [self.val(x) for x in v]
         if isinstance(v, dict): return {k: self.val(x) for k, x in v.items()}
+        if isinstance(v, set): return set(v)
         if hasattr(v, 'clone_with'): return v.clone_with(self)
         if isinstance(v, Cell): return self.cell(v)
         if callable(v): return v
